@@ -4,8 +4,9 @@ SPEC = {
     "lean_modules": ["PallasVerif.Props.C40"],
     "required_theorems": ["build_no_panic", "build_accepts_iff", "build_inputs_canonical", "build_redeemers_point_at_targets",
                           "mint_policies_ascending", "build_mint_content", "build_mint_no_zero", "mint_asset_accumulates",
-                          "build_outputs_content", "build_content", "build_id_is_hash_of_body_span"],
-    "streams": [{"name": "txbuild", "quick": 500, "thorough": 100000}],
+                          "build_outputs_content", "build_content", "build_script_data_hash", "build_id_is_hash_of_body_span",
+                          "build_id_is_blake2b256_of_body_span"],
+    "streams": [{"name": "txbuild", "quick": 500, "thorough": 60000}],
     "rule": "a case = 4..90 staging calls (add/remove inputs from a pool of 5 tx hashes x boundary indexes incl. repeats, reference "
             "and collateral inputs, outputs with 0..4 assets incl. quantity 0 / 2^63 / 2^64-1 and 33-byte names, datum hash / "
             "inline datum / script refs, remove_output, fee, mint/burn with cancelling and extreme amounts, remove_mint_asset, "
@@ -21,8 +22,10 @@ SPEC = {
         "compared with the model's BuiltTx",
         "not modelled, only sampled by that stream: CBOR encoding of conway::Tx and its decoding, whether a caller payload decodes "
         "(a bit on the op line computed with the pallas decoders), the Blake2b hashes that key scripts/datums (token on the op "
-        "line, checked against pallas-crypto by the harness), values of script_data_hash / auxiliary_data_hash (presence in the "
-        "model; the harness recomputes the aux hash)",
+        "line, checked against pallas-crypto by the harness), value of auxiliary_data_hash (presence in the model; the harness "
+        "recomputes it). script_data_hash IS modelled (Model/ScriptData.lean of C08 + Model/Blake2b.lean): its value is compared with "
+        "the driver's when at most one redeemer and one witness datum exist (otherwise the HashMap order of that run decides the "
+        "bytes and only presence is compared), and the oracle recomputes it from the emitted witness-set bytes in every case",
         "id clause: theorem build_id_is_hash_of_body_span is about a parameterised hash and encoder (Lean BLAKE2b is another "
         "engineer's module); on the implementation the harness recomputes Blake2b-256 (pallas-crypto) over the body bytes it "
         "slices out of tx_bytes with minicbor positions and compares with tx_hash on every successful build",
